@@ -44,6 +44,11 @@ def gen_cases(ctx):
                 cases.append({"kind": "catalogue", "inpkg": inpkg, "genseed": ctx.seed * 31 + inpkg, "idx": ch, "template": "matryer", "formatter": "goimports",
                               "placement": "inpkg-test" if inpkg else rng.choice(["outpkg", "xtest"]), "td": td, "gomod": "plain", "srckind": "ordinary",
                               "drvseed": rng.randrange(1, 1 << 20), "td_level": rng.choice(["root", "iface"])})
+    for k in range(6 if ctx.tier == "quick" else 40):
+        inpkg = k % 2 == 0
+        cases.append({"kind": "random" if k % 3 else "catalogue", "inpkg": inpkg, "genseed": rng.randrange(1 << 30) if k % 3 else ctx.seed * 31 + inpkg,
+                      "count": 8, "idx": list(range(8 * k, 8 * k + 8)), "template": "matryer", "formatter": "goimports", "placement": "inpkg-test" if inpkg else "outpkg",
+                      "td": {}, "onefile": True, "gomod": "plain", "srckind": "ordinary", "drvseed": rng.randrange(1, 1 << 20)})
     n = 6 if ctx.tier == "quick" else 60
     for k in range(n):
         se, st, wr = combos[(ci + k) % len(combos)]
@@ -56,6 +61,10 @@ def gen_cases(ctx):
 
 def eval_case(ctx, case):
     ifaces = c01.case_ifaces(case)
+    if case.get("onefile"):
+        # all mocks in ONE output file, every interface with its own combination of options
+        r = random.Random(case["drvseed"])
+        case = dict(case, td={}, td_by_name={i["name"]: {k: True for k in ("skip-ensure", "stub-impl", "with-resets") if r.random() < 0.5} for i in ifaces})
     root, info, usable, note = drvrun.prepare(ctx, case, ifaces, ctx.known)
     if root is None:
         return Verdict.skipped(note) if usable == [] else Verdict.inconclusive(note)
